@@ -314,7 +314,7 @@ class Gen:
                 else:
                     x = self.gen_diff(mc, info.get("bid", DIFF))
             else:
-                x = self.gen_scalar(mc, w, 0, (iname, port), allow_pr=allow_pr and w == shape, allow_nc=(kind == "inst"), todo=todo)
+                x = self.gen_scalar(mc, w, 0, (iname, port), allow_pr=allow_pr and w == shape, allow_nc=(kind in ("inst", "pair")), todo=todo)
         elif kind == "inst" and self.cfg["noconn"] and (iname, port) not in mc.referenced and ch.chance(1, 8):
             # a no-connect on a bundle-valued port: the implicit bundle instance behind it is private
             mc.nmemo += 1
@@ -372,6 +372,13 @@ class Gen:
                         self.emit(["conn", mc.mid, i2, p2, x, "connect"])
                     mc.assigned[(i2, p2)] = x
                     continue
+            if final and key in mc.assigned and isinstance(shape, int) and mc.m.insts[iname]["kind"] == "inst" and self.cfg["portrefs"] and ch.chance(1, 12):
+                # the port is assigned its own reference (`i.p = i.p`): a re-connection like any other -
+                # what it was connected to is replaced, the port ends on a net of its own
+                x = ["pr", iname, port]
+                self.emit(["conn", mc.mid, iname, port, x, "setattr"])
+                mc.assigned[key] = x
+                continue
             if key in mc.assigned:
                 way = ch.weighted([(3, "conn"), (3, "repl"), (2, "disc")], "rehow")
                 if way == "disc":
